@@ -1259,12 +1259,17 @@ def _b(V, L, cid):
 @builder('UKF.update')
 def _b(V, L, cid):
     return [C('fresh filter per call', lambda: _upd(V, True), lambda a: L.F.UKF().update(a['q'], a['gyr'], a['acc']), tags=('unit', 'single')),
-            C('fresh filter(P=) per call', lambda: dict(_upd(V, True), P=V.P4 * 0.01), lambda a: L.F.UKF(P=a['P']).update(a['q'], a['gyr'], a['acc']), tags=('unit', 'optional-array'))]
+            C('fresh filter(P=) per call', lambda: dict(_upd(V, True), P=V.P4 * 0.01), lambda a: L.F.UKF(P=a['P']).update(a['q'], a['gyr'], a['acc']), tags=('unit', 'optional-array')),
+            C('fresh filter(P=zeros) per call', lambda: dict(_upd(V, True), P=np.zeros((4, 4))), lambda a: L.F.UKF(P=a['P']).update(a['q'], a['gyr'], a['acc']), tags=('unit', 'optional-array'))]
 
 
 @builder('UKF.compute_sigma_points')
 def _b(V, L, cid):
-    return [C('state, covariance', lambda: {'self': L.F.UKF(), 'state': V.q, 'cov': V.P4 * 0.01}, lambda a: a['self'].compute_sigma_points(a['state'], a['cov']), tags=('unit', 'optional-array'))]
+    return [C('state, covariance', lambda: {'self': L.F.UKF(), 'state': V.q, 'cov': V.P4 * 0.01}, lambda a: a['self'].compute_sigma_points(a['state'], a['cov']), tags=('unit', 'optional-array')),
+            # covariances that are not positive definite take the regularisation fallback of the factorisation
+            C('state, singular covariance', lambda: {'self': L.F.UKF(), 'state': V.q, 'cov': np.diag([0.0, 0.01, 0.01, 0.01])}, lambda a: a['self'].compute_sigma_points(a['state'], a['cov']), tags=('unit', 'optional-array')),
+            C('state, zero covariance', lambda: {'self': L.F.UKF(), 'state': V.q, 'cov': np.zeros((4, 4))}, lambda a: a['self'].compute_sigma_points(a['state'], a['cov']), tags=('unit', 'optional-array')),
+            C('state, slightly indefinite covariance', lambda: {'self': L.F.UKF(), 'state': V.q, 'cov': np.diag([-1.5e-8, 0.01, 0.01, 0.01])}, lambda a: a['self'].compute_sigma_points(a['state'], a['cov']), tags=('unit', 'optional-array'))]
 
 
 # ---- Sensors, WMM ---------------------------------------------------------------------------------------------------------------
